@@ -45,20 +45,22 @@ type RunConfig struct {
 	PStoreErr     float64 `json:"p_store_err,omitempty"`
 	Wire          bool    `json:"wire,omitempty"`
 	StarveOnly    bool    `json:"starve_only,omitempty"`
-	NilTx         bool    `json:"nil_tx"`
-	PAsync        float64 `json:"p_async"`
-	PReFF         float64 `json:"p_reff"`
-	BadgerCache   int     `json:"badger_cache"`
-	Straggler     int     `json:"straggler"`
-	Synthetic     bool    `json:"synthetic"`
-	PJoinerBadger float64 `json:"p_joiner_badger,omitempty"`
-	PAppError     float64 `json:"p_app_error,omitempty"`
-	StragglerP    float64 `json:"straggler_p"`
-	Variants      int     `json:"variants"`
-	TxStyle       string  `json:"tx_style"` // "unique" | "mixed"
-	FairSuffix    bool    `json:"fair_suffix"`
-	Shadow        int     `json:"shadow"` // shadow-bootstrap checks per run (C11)
-	TornP         float64 `json:"torn_p"`
+	// persistent nodes may run with a backlog of undetermined events larger than their cache
+	BacklogOverCache bool    `json:"backlog_over_cache,omitempty"`
+	NilTx            bool    `json:"nil_tx"`
+	PAsync           float64 `json:"p_async"`
+	PReFF            float64 `json:"p_reff"`
+	BadgerCache      int     `json:"badger_cache"`
+	Straggler        int     `json:"straggler"`
+	Synthetic        bool    `json:"synthetic"`
+	PJoinerBadger    float64 `json:"p_joiner_badger,omitempty"`
+	PAppError        float64 `json:"p_app_error,omitempty"`
+	StragglerP       float64 `json:"straggler_p"`
+	Variants         int     `json:"variants"`
+	TxStyle          string  `json:"tx_style"` // "unique" | "mixed"
+	FairSuffix       bool    `json:"fair_suffix"`
+	Shadow           int     `json:"shadow"` // shadow-bootstrap checks per run (C11)
+	TornP            float64 `json:"torn_p"`
 
 	FullReread   bool `json:"full_reread"`
 	TracePerStep bool `json:"-"`
@@ -209,7 +211,7 @@ func (c *Cluster) genStep(g *genState) *Step {
 			alive = append(alive, n)
 		}
 	}
-	if cfg.ChattyPair && len(alive) >= 3 && g.burstLeft == 0 && r.Bool(0.04) {
+	if cfg.ChattyPair && cfg.Profile == "C13" && len(alive) >= 3 && g.burstLeft == 0 && r.Bool(0.04) {
 		// directed: pile + a persistent victim that re-fast-forwards (see opPileReFF)
 		vict := []*SimNode{}
 		for _, n := range alive {
